@@ -269,6 +269,10 @@ def joint_blocks(np, rnd, k, pyth=None):
         a = a * np.array([[10.0 ** rnd.uniform(-1, 1)] for _ in range(6)])
         if cls == 2:  # strongly correlated stations
             a[3:, :] = a[:3, :] + 1e-3 * a[3:, :]
+        # precisely determined stations: variances of 1e-6 .. 1e-10 m^2 (sigma 1 mm .. 10 um) as well as the metre-level ones - a
+        # cross-covariance block whose asymmetry is below an ABSOLUTE threshold (numpy's allclose: 1e-8) must not be treated as
+        # symmetric; one decade per station, fixed by k (round 9, C16-r9-1)
+        a = a * [1.0, 1e-3, 1e-4, 1e-5][(k // 4) % 4]
     s = a @ a.T
     s = (s + s.T) / 2.0
     return s[:3, :3].tolist(), s[3:, 3:].tolist(), s[:3, 3:].tolist()
